@@ -62,7 +62,7 @@ func c09APIMethods(api string) []string {
 		return []string{"GET"}
 	case "Post":
 		return []string{"POST"}
-	case "Routes(GET,POST)", "Routes(GET;POST)":
+	case "Routes(GET,POST)", "Routes(GET;POST)", "Routes(get,post)", "Routes(GET;post)":
 		return []string{"GET", "POST"}
 	case "Any":
 		return c08KnownMethods
@@ -129,6 +129,10 @@ func c09ApplyI(ops []c09Op, interleave bool) (w *c09World, ok bool) {
 					handle = w.f.Routes(op.Route, "GET,POST", h)
 				case "Routes(GET;POST)":
 					handle = w.f.Routes(op.Route, "GET", "POST", h)
+				case "Routes(get,post)": // method names are case-insensitive at registration
+					handle = w.f.Routes(op.Route, "get,post", h)
+				case "Routes(GET;post)":
+					handle = w.f.Routes(op.Route, "GET", "post", h)
 				case "Any":
 					handle = w.f.Any(op.Route, h)
 				}
@@ -225,10 +229,15 @@ func c09Key(w *c09World, kind string, want int, method string) string {
 
 // c09Probe serves the whole probe set on w; returns a digest of the answers.
 func c09Probe(m *ref.Matcher, w *c09World, ops []c09Op, l *core.Local) string {
+	return c09ProbeH(m, w, ops, l, c09ReqHdrs)
+}
+
+// c09ProbeH: the probe set over the given request header sets.
+func c09ProbeH(m *ref.Matcher, w *c09World, ops []c09Op, l *core.Local, reqHdrs []map[string]string) string {
 	var dig strings.Builder
 	for _, method := range c09Methods {
 		for _, path := range c09Paths {
-			for _, hdr := range c09ReqHdrs {
+			for _, hdr := range reqHdrs {
 				l.Evals++
 				hit, _, status, pan := c09Serve(w, method, path, hdr)
 				cs := c09Case{Ops: ops, Method: method, Path: path, Headers: hdr, Interleaved: w.inter}
@@ -335,7 +344,12 @@ func c09Run(r *core.Run) {
 		}
 		m := matchers.Get().(*ref.Matcher)
 		defer matchers.Put(m)
-		dig := c09Probe(m, w, hops, l)
+		// quick: the BFS serves the first eight request header sets (the re-specification histories serve all)
+		bfsHdrs := c09ReqHdrs
+		if !r.Thorough() {
+			bfsHdrs = c09ReqHdrs[:8]
+		}
+		dig := c09ProbeH(m, w, hops, l, bfsHdrs)
 		key := c09StateKey(w)
 		mu.Lock()
 		old, seen := digests[key]
@@ -371,6 +385,8 @@ var c09Prefixes = [][]c09Op{
 	{{Kind: "reg", Route: "/s", API: "Get"}},
 	{{Kind: "reg", Route: "/o/?t", API: "Any"}},
 	{{Kind: "reg", Route: "/e/?{x}", API: "Routes(GET,POST)"}},
+	{{Kind: "reg", Route: "/s", API: "Routes(get,post)"}},
+	{{Kind: "reg", Route: "/d/{x}", API: "Routes(GET;post)"}},
 	{{Kind: "reg", Route: "/s", API: "Get"}, {Kind: "reg", Route: "/d/{x}", API: "Get"}},
 	{{Kind: "reg", Route: "/o/?t", API: "Get"}, {Kind: "reg", Route: "/{m: **}", API: "Any"}},
 	{{Kind: "reg", Route: "/o/t", API: "Routes(GET;POST)"}, {Kind: "reg", Route: "/o/?{y}", API: "Get"}},
@@ -379,7 +395,7 @@ var c09Prefixes = [][]c09Op{
 // c09Respecify: "specifying constraints again replaces the previous set" over longer histories than the
 // BFS reaches: on each prefix, EVERY sequence of up to k Headers(i,set) operations, then the whole probe set.
 func c09Respecify(r *core.Run) {
-	kOne, kTwo := 4, 3
+	kOne, kTwo := 3, 3
 	if r.Thorough() {
 		kOne, kTwo = 6, 5
 	}
